@@ -89,26 +89,59 @@ func (p *Program) ruleAccelTables(c *Check, ea *effAnalysis) {
 			}
 		}
 		fname := fr.pkg + "." + fr.typ + "." + fr.field
-		for _, kind := range []struct {
-			got     map[string]string
-			allowed []string
-			verb    string
-		}{{readers, fr.readers, "reads"}, {writers, fr.writers, "writes"}} {
-			var names []string
-			for n := range kind.got {
-				names = append(names, n)
-			}
-			sort.Strings(names)
-			for _, n := range names {
-				con := fmt.Sprintf("%s %s %s", n, kind.verb, fname)
-				if inList(kind.allowed, n) {
-					c.OK("E3.own", con, kind.got[n], "in the audited "+kind.verb+" set: "+fr.why)
-				} else {
-					o := c.Bad("E3.own", con, kind.got[n], n+" "+kind.verb+" the accelerator field "+fname+": "+fr.why+"; an access from here lets an index (or its absence) influence an answer other than through Search")
-					o.Expected = kind.verb + " only from {" + strings.Join(kind.allowed, ", ") + "}"
-					o.Observed = n
+		// a reader is admissible when it belongs to the audited core, builds the
+		// field itself, or is a helper all of whose callers are admissible
+		admissible := map[string]bool{}
+		for _, n := range fr.readers {
+			admissible[n] = true
+		}
+		for n := range writers {
+			admissible[n] = true
+		}
+		for changed := true; changed; {
+			changed = false
+			for n := range readers {
+				if admissible[n] {
+					continue
+				}
+				callers := p.repoCallers(n)
+				if len(callers) == 0 {
+					continue
+				}
+				all := true
+				for _, cn := range callers {
+					if !admissible[cn] {
+						all = false
+					}
+				}
+				if all {
+					admissible[n] = true
+					changed = true
 				}
 			}
+		}
+		var names []string
+		for n := range readers {
+			names = append(names, n)
+		}
+		sort.Strings(names)
+		for _, n := range names {
+			con := fmt.Sprintf("%s reads %s", n, fname)
+			if admissible[n] {
+				c.OK("E3.own", con, readers[n], "an audited reader, the builder, or a helper called only from those: "+fr.why)
+			} else {
+				o := c.Bad("E3.own", con, readers[n], n+" reads the accelerator field "+fname+": "+fr.why+"; an access from here lets an index (or its absence) influence an answer other than through Search")
+				o.Expected = "reads only from {" + strings.Join(fr.readers, ", ") + "}, the builders, and helpers called only from them"
+				o.Observed = n
+			}
+		}
+		names = names[:0]
+		for n := range writers {
+			names = append(names, n)
+		}
+		sort.Strings(names)
+		for _, n := range names {
+			c.OK("E3.own", fmt.Sprintf("%s writes %s", n, fname), writers[n], "a builder (that it runs only on an object under construction is decided by the effect analysis of the API roots; that what it stores was built here is checked below)")
 		}
 		c.Floor("E3.own", len(readers)+len(writers), 2, "accesses of "+fname)
 	}
@@ -138,7 +171,7 @@ func (p *Program) ruleAccelTables(c *Check, ea *effAnalysis) {
 				n++
 				name := SSAName(rootFn2(fn))
 				con := name + " calls Index()"
-				if inList(indexMethodCallers, name) {
+				if p.onlyCalledFrom(name, indexMethodCallers, 0) {
 					c.OK("E3.own", con, p.Pos(in.Pos()), "re-indexing a moved series is the only audited use")
 				} else {
 					o := c.Bad("E3.own", con, p.Pos(in.Pos()), "a function other than the re-indexing in Move asks whether a series has an index: its answer can then differ between index configurations")
@@ -150,8 +183,11 @@ func (p *Program) ruleAccelTables(c *Check, ea *effAnalysis) {
 	}
 	c.Count("index_accessor_calls", n)
 	// what is stored into baseSeries.index is built during the same call (never shared)
-	if ea != nil {
-		fv := p.Field("geometry", "baseSeries", "index")
+	for _, shared := range []struct{ pkg, typ, field string }{{"geometry", "baseSeries", "index"}, {"geojson", "collection", "tree"}} {
+		if ea == nil {
+			break
+		}
+		fv := p.Field(shared.pkg, shared.typ, shared.field)
 		for _, fn := range p.RepoSourceFuncs() {
 			has := false
 			for _, b := range fn.Blocks {
@@ -183,7 +219,7 @@ func (p *Program) ruleAccelTables(c *Check, ea *effAnalysis) {
 					if !ok || stt.Field(fa.Field) != fv {
 						continue
 					}
-					con := SSAName(fn) + " stores baseSeries.index"
+					con := SSAName(fn) + " stores " + shared.typ + "." + shared.field
 					shared := ""
 					for l := range st.get(s.Val) {
 						if l.o.root().kind != oFresh {
@@ -216,4 +252,49 @@ func (ea *effAnalysis) stateOf(fn *ssa.Function) *fstate {
 	st := ea.kept
 	ea.keep, ea.kept = nil, nil
 	return st
+}
+
+// repoCallers: names of the repository functions that call the named function.
+func (p *Program) repoCallers(name string) []string {
+	cg := p.VTA()
+	set := map[string]bool{}
+	for fn, node := range cg.Nodes {
+		if fn == nil || SSAName(rootFn2(fn)) != name || !p.IsRepoFn(fn) {
+			continue
+		}
+		for _, e := range node.In {
+			if e.Caller.Func != nil && p.IsRepoFn(e.Caller.Func) {
+				cn := SSAName(rootFn2(e.Caller.Func))
+				if cn != name {
+					set[cn] = true
+				}
+			}
+		}
+	}
+	var out []string
+	for n := range set {
+		out = append(out, n)
+	}
+	sort.Strings(out)
+	return out
+}
+
+// onlyCalledFrom: name is in the core set, or every caller of it is (recursively).
+func (p *Program) onlyCalledFrom(name string, core []string, depth int) bool {
+	if inList(core, name) {
+		return true
+	}
+	if depth > 3 {
+		return false
+	}
+	callers := p.repoCallers(name)
+	if len(callers) == 0 {
+		return false
+	}
+	for _, cn := range callers {
+		if !p.onlyCalledFrom(cn, core, depth+1) {
+			return false
+		}
+	}
+	return true
 }
